@@ -118,7 +118,18 @@ impl AsRef<[u32]> for SmtString {
 /// ```
 impl From<&str> for SmtString {
     fn from(x: &str) -> Self {
-        SmtString::make(x.chars().map(|c| c as u32).collect())
+        SmtString::make(
+            x.chars()
+                .map(|c| {
+                    let c = c as u32;
+                    if c <= MAX_CHAR {
+                        c
+                    } else {
+                        REPLACEMENT_CHAR
+                    }
+                })
+                .collect(),
+        )
     }
 }
 
@@ -182,7 +193,7 @@ impl From<u32> for SmtString {
 ///
 impl From<char> for SmtString {
     fn from(x: char) -> SmtString {
-        SmtString::make(vec![x as u32])
+        SmtString::from(x as u32)
     }
 }
 
@@ -222,7 +233,9 @@ fn new_automaton() -> ParsingAutomaton {
 impl ParsingAutomaton {
     // add char x to the string so far
     fn push(&mut self, x: char) {
-        self.string_so_far.push(x as u32);
+        let x = x as u32;
+        let x = if x <= MAX_CHAR { x } else { REPLACEMENT_CHAR };
+        self.string_so_far.push(x);
     }
 
     // add char x to the pending array
